@@ -107,7 +107,19 @@ class G:
     def name(self, segments=None, unusual=0.25):
         r = self.r
         n = segments or r.choice([1, 1, 2, 2, 3, 4])
-        s = '/'.join(self.segment(unusual) for _ in range(n))
+        segs = [self.segment(unusual) for _ in range(n)]
+        if r.random() < unusual * 0.4:
+            # an empty category component: doubled, trailing or leading separator
+            k = r.choice(['double', 'trail', 'trail', 'lead', 'only'])
+            if k == 'double' and n > 1:
+                segs.insert(r.randint(1, n - 1), '')
+            elif k == 'trail':
+                segs.append('')
+            elif k == 'lead':
+                segs.insert(0, '')
+            elif k == 'only' and r.random() < 0.3:
+                segs = ['', '']
+        s = '/'.join(segs)
         b = s.encode('utf-8')
         return b
 
@@ -147,9 +159,13 @@ class G:
             lit = dec_str(v / 10) + 'e1'
         elif style < 0.92:
             lit = dec_str(v * 10) + 'e-1' if (v * 10).denominator in (1, 2, 4, 8, 16) else dec_str(v)
-        elif style < 0.95 and v >= 0:
+        elif style < 0.94 and v >= 0:
             lit = '+' + dec_str(v)
-        elif style < 0.97 and v != 0:
+        elif style < 0.96:
+            # leading zeros (not octal: the grammar is decimal floating point)
+            lit = dec_str(abs(v))
+            lit = ('-' if v < 0 else '') + '0' * r.randint(1, 2) + lit
+        elif style < 0.975 and v != 0:
             # hex float
             lit = ('-' if v < 0 else '') + '0x%xp-%d' % (abs(v).numerator, abs(v).denominator.bit_length() - 1)
         else:
@@ -280,6 +296,8 @@ class G:
 
     def note(self):
         r = self.r
+        if r.random() < 0.12:
+            return (b'', b'')                       # a line of comment markers only: the empty note
         if r.random() < 0.5:
             return (self.word(2, 8, 0.1).encode(), (self.word(1, 6, 0.2) + ' ' + self.word(1, 6, 0.1)).encode())
         return (b'', (self.word(2, 8, 0.2) + ' ' + self.word(1, 5, 0)).encode())
@@ -307,7 +325,9 @@ class G:
         lines.append(h + (b':' if hcolon else b'') + (r.choice([b'', b' ', b'\t']) if varied else b''))
         for (nname, nval) in notes:
             lay = self.layout_line() if varied else self.plain_line()
-            if nname:
+            if not nname and not nval:
+                lines.append(lay['indent'] + r.choice([b'#', b'#', b'##', b'# :', b'#:', b'# #']))
+            elif nname:
                 lines.append(lay['indent'] + b'# ' + nname + b': ' + nval)
             else:
                 lines.append(lay['indent'] + b'# ' + nval)
